@@ -208,14 +208,50 @@ def atoms_of(v, it=None) -> set:
     return out
 
 
+def limits_objenv(prog: Program) -> dict:
+    """Object environment for evaluating Grid.ingrid: the four limits as atoms xmin/xmax/ymin/ymax and every
+    other attribute that Grid.__init__ derives from the subgrid limits (a precomputed tuple of interior
+    bounds, say) rewritten over those atoms. The rewriting inverts the definitions of the limits themselves
+    (xmin = i0 + c  =>  i0 = xmin - c), so it needs each limit to be a base limit plus a constant."""
+    env = {f"grid.{k}": NF.atom(k) for k in ("xmin", "xmax", "ymin", "ymax")}
+    try:
+        ga = grid_attrs(prog)
+    except AnalysisError:
+        return env
+    inv = {}
+    for k in ("xmin", "xmax", "ymin", "ymax"):
+        v = ga.get(k)
+        if not isinstance(v, NF):
+            return env
+        bases = [a for a in v.atoms()]
+        if len(bases) != 1:
+            return env
+        b = bases[0]
+        c = v - NF.atom(b)
+        if not c.is_const() or b in inv:
+            return env
+        inv[b] = NF.atom(k) - c
+    for name, v in ga.items():
+        key = f"grid.{name}"
+        if key in env or name.startswith("_limits"):
+            continue
+        try:
+            if isinstance(v, NF) and v.atoms() <= set(inv):
+                env[key] = v.subst(inv)
+            elif isinstance(v, Tup) and all(isinstance(x, NF) and x.atoms() <= set(inv) for x in v.items):
+                env[key] = Tup([x.subst(inv) for x in v.items])
+        except Exception:  # noqa: BLE001
+            continue
+    return env
+
+
 def valid_region(prog: Program) -> dict:
     """Bounds of Grid.ingrid as normal forms over xmin/xmax/ymin/ymax:
     {("X","lower"): (NF, strict), ("X","upper"): ..., ("Y","lower"): ..., ("Y","upper"): ...}."""
     fi = prog.role_func("grid", "ingrid")
     dom = NFDomain()
     it = Interp(prog, dom, depth=0)
-    for k in ("xmin", "xmax", "ymin", "ymax"):
-        it.objenv[f"grid.{k}"] = NF.atom(k)
+    it.objenv.update(limits_objenv(prog))
     res, fr = it.run(fi, dict(X=NF.atom("X"), Y=NF.atom("Y")), "grid")
     cmps = []
 
